@@ -225,30 +225,21 @@ macro_rules! purge_method_for_document_type {
       K: JwkStorage,
       I: KeyIdStorage,
     {
-      let (method, scope) = document.remove_method_and_scope(id).ok_or(Error::MethodNotFound)?;
-
-      // Obtain method digest and handle error if this operation fails.
-      let method_digest: MethodDigest = match MethodDigest::new(&method).map_err(Error::MethodDigestConstructionError) {
-        Ok(digest) => digest,
-        Err(error) => {
-          // Revert state by reinserting the method before returning the error.
-          let _ = document.insert_method(method, scope);
-          return Err(error);
-        }
+      // Look the method up without removing it: the document is only changed once the storages have been updated,
+      // so that no failure below needs the method, its position or the references to it to be restored.
+      let method_digest: MethodDigest = {
+        let method: &VerificationMethod = document
+          .methods(None)
+          .into_iter()
+          .find(|method| method.id() == id)
+          .ok_or(Error::MethodNotFound)?;
+        MethodDigest::new(method).map_err(Error::MethodDigestConstructionError)?
       };
 
-      // Obtain key id and handle error upon failure.
-      let key_id: KeyId = match <I as KeyIdStorage>::get_key_id(&storage.key_id_storage(), &method_digest)
+      // Obtain key id.
+      let key_id: KeyId = <I as KeyIdStorage>::get_key_id(&storage.key_id_storage(), &method_digest)
         .await
-        .map_err(Error::KeyIdStorageError)
-      {
-        Ok(key_id) => key_id,
-        Err(error) => {
-          // Reinsert method before returning.
-          let _ = document.insert_method(method, scope);
-          return Err(error);
-        }
-      };
+        .map_err(Error::KeyIdStorageError)?;
 
       // Delete key and key id concurrently.
       let key_deletion_fut = <K as JwkStorage>::delete(&storage.key_storage(), &key_id);
@@ -258,10 +249,14 @@ macro_rules! purge_method_for_document_type {
 
       // Check for any errors that may have occurred. Unfortunately this is somewhat involved.
       match (key_deletion_result, key_id_deletion_result) {
-        (Ok(_), Ok(_)) => Ok(()),
+        (Ok(_), Ok(_)) => {
+          let _ = document.remove_method_and_scope(id);
+          Ok(())
+        }
         (Ok(_), Err(key_id_deletion_error)) => {
           // Cannot attempt to revert this operation as the JwkStorage may not return the same KeyId when
-          // JwkStorage::insert is called.
+          // JwkStorage::insert is called. The key is gone, so the method is removed as well.
+          let _ = document.remove_method_and_scope(id);
           Err(Error::UndoOperationFailed {
             message: format!(
               "cannot undo key deletion: this results in a stray key id stored under packed method digest: {:?}",
@@ -284,15 +279,13 @@ macro_rules! purge_method_for_document_type {
               undo_error: Some(Box::new(key_id_insertion_error)),
             })
           } else {
-            // KeyId reinsertion succeeded. Now reinsert method.
-            let _ = document.insert_method(method, scope);
+            // KeyId reinsertion succeeded; the document was not touched.
             Err(Error::KeyStorageError(key_deletion_error))
           }
         }
         (Err(_key_deletion_error), Err(key_id_deletion_error)) => {
-          // We assume this means nothing got deleted. Reinsert the method and return one of the errors (perhaps
+          // We assume this means nothing got deleted; the document was not touched. Return one of the errors (perhaps
           // key_id_deletion_error as we really expect the key id storage to work as expected at this point).
-          let _ = document.insert_method(method, scope);
           Err(Error::KeyIdStorageError(key_id_deletion_error))
         }
       }
